@@ -135,8 +135,16 @@ func (g *G) templateStmt() *lang.Node {
 		g.declare(&vinfo{name: f, t: TFn, arity: 2, variadic: true, ptys: []Ty{TAny, TArr}})
 		g.declare(&vinfo{name: a, t: TArr, elem: TInt})
 		g.declare(&vinfo{name: r, t: TArr, elem: TAny})
-		fn := lang.Func([]string{p1, rest}, true, lang.Block(
-			lang.Return(lang.Array(lang.Ident(p1), lang.Call(lang.Ident("len"), lang.Ident(rest)), lang.Ident(rest)))))
+		body := []*lang.Node{}
+		if g.chance(500, "tplSpreadWrite") {
+			// the variadic parameter is the callee's own array: writing into
+			// it must not show in the array the caller spread
+			g.feat("tpl:variadic-spread:callee-writes")
+			body = append(body, lang.If(nil, lang.Binary(">", lang.Call(lang.Ident("len"), lang.Ident(rest)), lang.Int(0)),
+				lang.Block(lang.Assign("=", lang.Index(lang.Ident(rest), lang.Int(0)), lang.Int(int64(90+g.draw(9, "tplSpreadVal"))))), nil))
+		}
+		body = append(body, lang.Return(lang.Array(lang.Ident(p1), lang.Call(lang.Ident("len"), lang.Ident(rest)), lang.Ident(rest))))
+		fn := lang.Func([]string{p1, rest}, true, lang.Block(body...))
 		if !g.builtinFree("len") {
 			return g.defineStmt()
 		}
@@ -406,6 +414,34 @@ func (g *G) stringTemplate(id int, n func(string) string) *lang.Node {
 		}
 		g.declare(&vinfo{name: name, t: TStr})
 		return lang.Define(name, lang.Str(lit))
+	}
+	if g.chance(140, "strConv") && g.builtinFree("bytes") && g.builtinFree("string") {
+		// conversions between a string and bytes of a chosen length: the two
+		// types have separate maxima, and each conversion checks the target's
+		g.feat("tpl:string-bytes-conversion")
+		k := []int{0, 1, 19, 20, 21, 22, 31, 32, 33, 39, 40, 41, 63, 64, 65, 99, 100, 101, 119, 120, 121, 999, 1000, 1001}[g.draw(24, "convLen")]
+		src, dst := n("cvs"), n("cvd")
+		lit := strings.Repeat("y", k)
+		switch g.draw(4, "convDir") {
+		case 0: // string -> bytes
+			g.declare(&vinfo{name: src, t: TStr})
+			g.declare(&vinfo{name: dst, t: TBytes})
+			return seq(lang.Define(src, lang.Str(lit)), lang.Define(dst, lang.Call(lang.Ident("bytes"), lang.Ident(src))))
+		case 1: // bytes -> string
+			g.declare(&vinfo{name: src, t: TBytes})
+			g.declare(&vinfo{name: dst, t: TStr})
+			return seq(lang.Define(src, lang.Call(lang.Ident("bytes"), lang.Int(int64(k)))), lang.Define(dst, lang.Call(lang.Ident("string"), lang.Ident(src))))
+		case 2: // bytes -> bytes, string -> string (identity conversions check too)
+			g.declare(&vinfo{name: src, t: TBytes})
+			g.declare(&vinfo{name: dst, t: TBytes})
+			return seq(lang.Define(src, lang.Call(lang.Ident("bytes"), lang.Int(int64(k)))), lang.Define(dst, lang.Call(lang.Ident("bytes"), lang.Ident(src))))
+		default: // string built at run time -> bytes, with a fallback value
+			g.declare(&vinfo{name: src, t: TStr})
+			g.declare(&vinfo{name: dst, t: TBytes})
+			half := strings.Repeat("y", k/2)
+			return seq(lang.Define(src, lang.Binary("+", lang.Str(half), lang.Str(strings.Repeat("z", k-k/2)))),
+				lang.Define(dst, lang.Call(lang.Ident("bytes"), lang.Ident(src), lang.Call(lang.Ident("bytes"), lang.Int(1)))))
+		}
 	}
 	switch g.weighted("strTpl", 6, 4, 4, 3, 3, 3, 3) {
 	case 0:
